@@ -117,6 +117,11 @@ fn small_problem(rng: &mut Rng, tiny: bool) -> Problem {
     if rng.bool(0.1) {
         p.P = clarabel::algebra::CscMatrix::zeros((p.n(), p.n()));
     }
+    // ... and in b: hugely negative finite right-hand sides (below minus the infinity bound) are ordinary data
+    if rng.bool(0.15) && !p.b.is_empty() {
+        let i = rng.usize(0, p.b.len() - 1);
+        p.b[i] = *rng.choose(&[-1e21, -4e25, -1e300, -1.0000001e20]);
+    }
     // explicitly stored zeros (placeholders for entries to be filled in later by update_A / update_P): part of the
     // problem's sparsity pattern, which a saved file has to reproduce
     if rng.bool(0.3) {
